@@ -6,9 +6,9 @@
    The model is the model of the code after the six `fix:` commits listed in known_findings.d/C16.json;
    the behaviour before each repair is kept in the model as [*_prefix] and the lemmas [C16_before_fix_*]
    exhibit, for each, a concrete input on which it did not have the property. *)
-From Coq Require Import List NArith Bool Lia.
+From Coq Require Import List NArith Bool Lia Permutation.
 From AdltV Require Import Base.Res Base.MachInt Remote.Stream Remote.StreamProofs Remote.StreamSearchProofs
-  Remote.StreamSendProofs Remote.StreamFast Remote.StreamFastProofs Exec.C16.
+  Remote.StreamSendProofs Remote.StreamFast Remote.StreamFastProofs Remote.StreamFilters Remote.StreamFiltersProofs Exec.C16.
 Import ListNotations.
 Open Scope N_scope.
 
@@ -316,7 +316,7 @@ Theorem C16_search_by_index_in_time_order_is_wrong :
 Proof. exact search_by_index_in_time_order_is_wrong. Qed.
 (* a query on a log that is still being parsed: a tick without new messages ended it (before the repair) *)
 Theorem C16_before_fix_query_ended_while_parsing :
-  let s := new_ctx 1 false true (cfset [(0, 1, 1)]) 0 5 in
+  let s := new_ctx 1 false true (cfset [(0, 1, 1, 1)]) 0 5 in
   query_done_prefix false 0 s = true /\ done_cond false 0 s = false.
 Proof. split; vm_compute; reflexivity. Qed.
 
@@ -325,7 +325,7 @@ Proof. split; vm_compute; reflexivity. Qed.
    parser has finished gets only the first [budget] messages of its window and then its end marker *)
 Theorem C16_query_end_rule_needs_unbounded_send :
   let log := expand [(5, 1, 1)] in
-  let q := new_ctx 1 false true (cfset [(0, 1, 1)]) 0 10 in
+  let q := new_ctx 1 false true (cfset [(0, 1, 1, 1)]) 0 10 in
   (exists s' ms, tick_stream_gen part_chunk collect (Some 2) log true q = Ok (s', [FInfo 1 5 5 5; FMsgs 1 ms; FDone 1]) /\
                  map c_index ms = [0; 1]) /\
   (exists s' ms, tick_stream_gen part_chunk collect send_budget log true q = Ok (s', [FInfo 1 5 5 5; FMsgs 1 ms; FDone 1]) /\
@@ -342,10 +342,109 @@ Example C16_nonvacuous_rejected :
     filter is_error_reply evs = [EErr; EErr; EErr] /\ map (@s_id cmsg) (sv_streams sv) = [2].
 Proof. cbv zeta. eexists _, _. split; [vm_compute; reflexivity|]. repeat split; vm_compute; reflexivity. Qed.
 
+(* ---------------------------------------------------------------- the filter set of a command *)
+(* "the filtered message sequence" and "the set of matching positions" are defined by the "filters" array of the
+   command.  Remote/StreamFilters.v models the loop of StreamContext::from (stream / query) and of
+   process_stream_search_params (stream_search) that builds the container match_filters reads: a filter is
+   (kind, enabled, criteria); only enabled filters are sorted into the list of their kind. *)
+Section FilterSets.
+  Context {M : Type}.
+  Notation pfilter := (@pfilter M).
+
+  (* the selection is the set semantics of the ENABLED filters of the array: no enabled positive filter exists or one
+     matches; no enabled negative filter matches; no enabled event filter exists or AT LEAST ONE matches *)
+  Theorem C16_filter_set_semantics (l : list pfilter) m :
+    match_filters (fset_of l) m = true <->
+      ((~ exists f, In f l /\ pf_enabled f = true /\ pf_kind f = KPos) \/
+       (exists f, In f l /\ pf_enabled f = true /\ pf_kind f = KPos /\ pf_crit f m = true)) /\
+      (~ exists f, In f l /\ pf_enabled f = true /\ pf_kind f = KNeg /\ pf_crit f m = true) /\
+      ((~ exists f, In f l /\ pf_enabled f = true /\ pf_kind f = KEvent) \/
+       (exists f, In f l /\ pf_enabled f = true /\ pf_kind f = KEvent /\ pf_crit f m = true)).
+  Proof. exact (filter_set_semantics l m). Qed.
+
+  (* a disabled filter of any kind, or a marker filter, anywhere in the array: the same container, hence the same
+     stream, query and search; the order of the array is irrelevant for the selection *)
+  Theorem C16_disabled_and_marker_filters_have_no_effect (a b : list pfilter) f :
+    pf_enabled f = false \/ pf_kind f = KMarker -> fset_of (a ++ f :: b) = fset_of (a ++ b).
+  Proof. exact (ineffective_filter_ignored a b f). Qed.
+  Theorem C16_only_enabled_filters_count (l : list pfilter) : fset_of l = fset_of (filter (@pf_enabled M) l).
+  Proof. exact (disabled_filters_dropped l). Qed.
+  Theorem C16_filter_order_irrelevant (a b : list pfilter) m :
+    Permutation a b -> match_filters (fset_of a) m = match_filters (fset_of b) m.
+  Proof. exact (selection_order_irrelevant a b m). Qed.
+
+  (* several event (positive) filters are a union: with an enabled event filter f in front the event rule is
+     "f matches or one of the others does"; a further one never removes a message *)
+  Theorem C16_event_filters_are_a_union (l : list pfilter) f m :
+    pf_enabled f = true -> pf_kind f = KEvent ->
+    match_filters (fset_of (f :: l)) m =
+      ((negb (has_kind KPos l) || kind_hits KPos l m) && negb (kind_hits KNeg l m) && (pf_crit f m || kind_hits KEvent l m)) /\
+    (has_kind KEvent l = true -> match_filters (fset_of l) m = true -> match_filters (fset_of (f :: l)) m = true).
+  Proof.
+    intros He Hk. split; [exact (event_rule_is_or l f m He Hk)|exact (more_event_filters_select_more l f m He Hk)].
+  Qed.
+  Theorem C16_positive_filters_are_a_union (l : list pfilter) f m :
+    pf_enabled f = true -> pf_kind f = KPos -> has_kind KPos l = true ->
+    match_filters (fset_of l) m = true -> match_filters (fset_of (f :: l)) m = true.
+  Proof. exact (more_positive_filters_select_more l f m). Qed.
+
+  (* the filtered message sequence of a stream / query created with the array l (the sequence whose windows
+     C16_window_delivered delivers): position i of the log is in it iff the enabled filters of l select its message *)
+  Theorem C16_filtered_sequence_is_set_semantics (l : list pfilter) (all : list M) :
+    matching (fset_of l) all = idxs_where (selects l) all 0 /\
+    forall i, In i (matching (fset_of l) all) <-> exists m, nthN all i = Some m /\ selects l m = true.
+  Proof. split; [exact (filtered_sequence_is_selection l all)|intros i; exact (in_filtered_sequence_iff l all i)]. Qed.
+
+  (* paging through a search whose request carried the array l: the union of the pages is exactly the stream positions
+     from [start] on whose message the ENABLED filters of l select *)
+  Theorem C16_search_pages_union_is_set_semantics (all : list M) (s : sctx M) (l : list pfilter) maxr fuel start :
+    inv all s ->
+    (N.to_nat (stream_len s (len all) - start) < fuel)%nat ->
+    exists pages,
+      search_pages fuel all s start maxr (fset_of l) = Ok pages /\
+      chain start pages (N.max start (stream_len s (len all))) /\
+      concat (map fst pages) =
+        filter (fun i => match stream_msg all s i with Ok m => selects l m | _ => false end)
+               (range start (N.max start (stream_len s (len all)))).
+  Proof.
+    intros Hi Hf. exact (search_pages_union_is_selection all s l maxr fuel start (inv_stream_ok all s Hi) Hf).
+  Qed.
+End FilterSets.
+
+(* the two near misses on concrete inputs (messages are numbers, a criterion is "equals v").
+   "every event filter matches" instead of "at least one": event filters 1 and 2 select positions 1,2,3 of the log
+   [0;1;2;1], the all() rule selects nothing - and it agrees with the real rule whenever at most one enabled event
+   filter exists, so only filter sets with two or more event filters tell them apart *)
+Theorem C16_event_rule_all_is_wrong :
+  (let l := [nf KEvent true 1; nf KEvent true 2] in
+   idxs_where (selects l) [0; 1; 2; 1] 0 = [1; 2; 3] /\ idxs_where (selects_event_all l) [0; 1; 2; 1] 0 = []) /\
+  (forall M (l : list (@pfilter M)) m, (length (filter (is_en KEvent) l) <= 1)%nat -> selects_event_all l m = selects l m).
+Proof. split; [exact event_all_rule_is_wrong|intros M l m; exact (event_all_rule_agrees_up_to_one l m)]. Qed.
+(* the parse loop without the `enabled` guard: one disabled positive or event filter makes the selection empty *)
+Theorem C16_unguarded_disabled_filter_is_wrong :
+  let l := [nf KPos false 7] in
+  matching (fset_of l) [0; 1; 2] = [0; 1; 2] /\ matching (fset_of_unguarded l) [0; 1; 2] = [] /\
+  let l' := [nf KEvent false 7; nf KEvent true 1] in
+  matching (fset_of l') [0; 1; 2] = [1] /\ matching (fset_of_unguarded l') [0; 1; 2] = [1] /\
+  let l'' := [nf KEvent false 7] in
+  matching (fset_of l'') [0; 1; 2] = [0; 1; 2] /\ matching (fset_of_unguarded l'') [0; 1; 2] = [].
+Proof. exact unguarded_disabled_filter_is_wrong. Qed.
+
+(* non-vacuity: a command array with every kind, enabled and disabled filters, two event filters; the concrete
+   filters of the correspondence cases (Exec/C16.v) are instances of the parse model *)
+Example C16_nonvacuous_filter_set :
+  let fs := [(3, 1, 1, 1); (0, 0, 1, 2); (3, 1, 2, 1); (0, 1, 0, 0); (1, 2, 1, 1); (3, 0, 2, 0); (2, 1, 0, 1)] in
+  let log := expand_file [(1, 1, 0, 0, 0, 0, 0); (1, 1, 1, 0, 0, 0, 1); (1, 1, 2, 0, 0, 0, 2); (1, 1, 1, 1, 0, 0, 3);
+                          (1, 2, 1, 0, 0, 0, 4); (1, 1, 2, 0, 0, 0, 5)] in
+  matching (cfset fs) log = [1; 2; 5] /\
+  matching (cfset (filter cf_enabled fs)) log = [1; 2; 5] /\
+  matching (cfset (rev fs)) log = [1; 2; 5].
+Proof. vm_compute. repeat split; reflexivity. Qed.
+
 (* ---------------------------------------------------------------- non-vacuity *)
 (* a schedule with three batches, chunk sizes 1, 2 and 100, on a query with window end 2 *)
 Example C16_nonvacuous_index :
-  let fs := cfset [(0, 1, 1)] in
+  let fs := cfset [(0, 1, 1, 1)] in
   let log := expand [(1, 1, 0); (2, 1, 1); (1, 1, 0); (2, 1, 1)] in
   let sch := [SArrive (firstN 2 log); SProc 1; SArrive (skipN 2 log); SProc 2; SProc 100] in
   chunks_ok sch /\ no_end_change sch /\
@@ -360,8 +459,8 @@ Qed.
 (* a history with two arrival batches, a filtered stream, a window change and a query: what is delivered *)
 Example C16_nonvacuous_session :
   let log := expand [(2, 1, 0); (3, 1, 1); (1, 1, 0); (2, 1, 1)] in
-  let ops := [ONew true true (cfset [(0, 1, 1)]) 1 3; OTick (firstN 4 log) false; OWindow 1 0 10;
-              OTick (skipN 4 log) false; ONew false true (cfset [(0, 1, 0)]) 0 2; OTick [] true] in
+  let ops := [ONew true true (cfset [(0, 1, 1, 1)]) 1 3; OTick (firstN 4 log) false; OWindow 1 0 10;
+              OTick (skipN 4 log) false; ONew false true (cfset [(0, 1, 0, 1)]) 0 2; OTick [] true] in
   exists sv evs, c_run false (server0 1) ops = Ok (sv, evs) /\
     map c_index (delivered 1 evs) = [3] /\                (* the old id: position 1 only, then renewed *)
     map c_index (delivered 2 evs) = [2; 3; 4; 6; 7] /\    (* the new id: the whole window *)
@@ -374,7 +473,7 @@ Qed.
 Example C16_nonvacuous_pages :
   let log := expand [(2, 1, 0); (3, 1, 1); (1, 1, 0); (2, 1, 1)] in
   let s := set_progress (new_ctx 1 true true (cfset []) 0 10) [] 8 in
-  search_pages 9 log s 1 2 (cfset [(0, 1, 1)]) = Ok [([2; 3], (1, 4)); ([4; 6], (4, 7)); ([7], (7, 8))].
+  search_pages 9 log s 1 2 (cfset [(0, 1, 1, 1)]) = Ok [([2; 3], (1, 4)); ([4; 6], (4, 7)); ([7], (7, 8))].
 Proof. vm_compute. reflexivity. Qed.
 
 Print Assumptions C16_filtered_batch_independent.
@@ -411,6 +510,17 @@ Print Assumptions C16_before_fix_lookup_time_returned_last_of_equal.
 Print Assumptions C16_before_fix_lookup_index_unfiltered_returned_0.
 Print Assumptions C16_before_fix_lookup_index_sorted_returned_last_of_equal.
 Print Assumptions C16_before_fix_query_ended_while_parsing.
+Print Assumptions C16_filter_set_semantics.
+Print Assumptions C16_disabled_and_marker_filters_have_no_effect.
+Print Assumptions C16_only_enabled_filters_count.
+Print Assumptions C16_filter_order_irrelevant.
+Print Assumptions C16_event_filters_are_a_union.
+Print Assumptions C16_positive_filters_are_a_union.
+Print Assumptions C16_filtered_sequence_is_set_semantics.
+Print Assumptions C16_search_pages_union_is_set_semantics.
+Print Assumptions C16_event_rule_all_is_wrong.
+Print Assumptions C16_unguarded_disabled_filter_is_wrong.
+Print Assumptions C16_nonvacuous_filter_set.
 Print Assumptions C16_nonvacuous_index.
 Print Assumptions C16_nonvacuous_session.
 Print Assumptions C16_nonvacuous_pages.
